@@ -180,6 +180,12 @@ def obligations(tier):
                       goals=("end", "complete", "resume", "late-report"),
                       split=(("k_p2_t0", (0, 1, 2)), ("end_p2_t0", (0, 1)), ("dec_3", (0, 1, 2)), ("dec_4", (0, 1, 2))),
                       budget_s=2400, may_be_incomplete=not quick))
+    # two concurrent trials with batches of two, stop decisions only (no pause/resume cycles): a decision on the
+    # first result of one trial's batch must not disturb the other trial's delivery
+    p = dict(W=2, T=2, R=2, K=2, J=0, max_fail=0, props=["C02"], crit="finished", crit_n=2, P=8, Z=0, decisions=["CONTINUE", "STOP"])
+    obs.append(Ob("C02.d[loop,W=2,T=2,R=2,K=2,stop-only]", "props.c01:h_loop", p,
+                  bounds=dict(W=2, T=2, R=2, K=2, decisions="CONTINUE/STOP", polls="<=8"), goals=("end", "complete"),
+                  split=(("k_p2_t0", (0, 1, 2)), ("k_p2_t1", (0, 1, 2)), ("dec_3", (0, 1))), budget_s=2400))
     return obs
 
 
